@@ -111,15 +111,15 @@ Print Assumptions C14_bitsem_tsem_array_write_out_of_bounds.
 Theorem C14_bitsem_tsem_array_read_after_write : ltac:(let T := type of tsem_array_read_after_write in exact T).
 Proof. exact tsem_array_read_after_write. Qed.
 Print Assumptions C14_bitsem_tsem_array_read_after_write.
-Theorem C14_bitsem_slice_field : ltac:(let T := type of slice_field in exact T).
-Proof. exact slice_field. Qed.
+Theorem C14_bitsem_slice_field : ltac:(let T := type of (@slice_field bool) in exact T).
+Proof. exact (@slice_field bool). Qed.
 Print Assumptions C14_bitsem_slice_field.
-Theorem C14_bitsem_splice_field : ltac:(let T := type of splice_field in exact T).
-Proof. exact splice_field. Qed.
+Theorem C14_bitsem_splice_field : ltac:(let T := type of (@splice_field bool) in exact T).
+Proof. exact (@splice_field bool). Qed.
 Print Assumptions C14_bitsem_splice_field.
-Theorem C14_bitsem_slice_splice_same : ltac:(let T := type of slice_splice_same in exact T).
-Proof. exact slice_splice_same. Qed.
+Theorem C14_bitsem_slice_splice_same : ltac:(let T := type of (@slice_splice_same bool) in exact T).
+Proof. exact (@slice_splice_same bool). Qed.
 Print Assumptions C14_bitsem_slice_splice_same.
-Theorem C14_bitsem_slice_splice_other : ltac:(let T := type of slice_splice_other in exact T).
-Proof. exact slice_splice_other. Qed.
+Theorem C14_bitsem_slice_splice_other : ltac:(let T := type of (@slice_splice_other bool) in exact T).
+Proof. exact (@slice_splice_other bool). Qed.
 Print Assumptions C14_bitsem_slice_splice_other.
